@@ -7,7 +7,7 @@ claimed = {
  "C01": ("E1 simbroker/route + route-live", "exploration", "5 C01", "deterministic whole-broker simulation (synctest fake clock, simulated connections/gossip/RPC, seeded scenarios), reference MQTT matcher as oracle; second variant judges publishes issued while subscription gossip is in flight against the LWW fold of what the publishing node has been handed; client links dying under a broker write while the client is still a registered recipient; ddmin replay files",
          "Seeded search over subscribe/unsubscribe/re-subscribe histories and publish bursts on 1-3 simulated nodes with gossip loss/duplication/delay; every (publish, session) pair is judged against an independent MQTT 3.1.1 matcher, so wrong matches, missed '#'/'+' cases, order dependence and pruning errors surface as copy-count mismatches. Sampling with a coverage count, not exhaustive enumeration.",
          "Trusts the harness's own MQTT codec and matcher, the synctest fake clock, the maporder instrumentation (map ranges iterate in simulator order) and the stubs listed in the evidence file; goroutine order inside one step is left to the Go runtime (canonical determinism, see DESIGN 2.1)."),
- "C02": ("E1 simbroker/pipeline", "exploration", "5 C02", "deterministic whole-broker simulation with pre-filled real commit log on tmpfs, seeded publish sequences crossing segment and truncation boundaries, subscribers that acknowledge at once or only after one or more retransmission deadlines, at-least-once oracle over acknowledged publishes",
+ "C02": ("E1 simbroker/pipeline", "exploration", "5 C02", "deterministic whole-broker simulation with pre-filled real commit log on tmpfs, seeded publish sequences crossing segment and truncation boundaries, subscribers that acknowledge at once or only after one or more retransmission deadlines, QoS 2 publishers that release at once, late, or only after the broker's handshake deadline, at-least-once oracle over acknowledged publishes",
          "Every publish the publisher saw acknowledged must reach every subscriber that stayed connected with a matching filter, byte-identical; logs start empty or pre-filled around the batch/segment/truncation boundaries and bursts of up to 2600 publishes cross them inside the run.",
          "Fault-free network; 1-2 nodes, judged subscribers on the acknowledging log's node, subscribers of the other node present as neighbours in every match list; real vx-labs/commitlog files under the simulated broker; same trusted base as C01."),
  "C04": ("E2 ackq + E3 lockstep (-race)", "exploration", "5 C04", "sequential simulation of the real ack.Queue and both expiration.List implementations under synthetic time against a map model, plus PRNG-scheduled concurrent tasks under the race detector (lockstep engine)",
@@ -19,7 +19,7 @@ claimed = {
  "C08": ("E2 repl/converge + E3 lockstep (-race)", "exploration", "5 C08", "sequential multi-replica simulation of the real distributed.State with per-node offset clocks; seeded permutation/duplication/batching of captured broadcasts; reference LWW fold as oracle; plus concurrent delivery of competing updates by PRNG-scheduled tasks under the race detector (lockstep engine)",
          "Updates produced by real mutators on 1-3 origin replicas with clock offsets are delivered to 2-3 fresh replicas under independent plans (permuted, duplicated, batched, via NotifyMsg or MergeRemoteState); all receivers must equal the LWW fold of the update set.",
          "Timestamps are unique across nodes (ties not generated); broadcasts are the real protobuf bytes."),
- "C09": ("E2 repl/bcast + E3 lockstep (-race)", "exploration", "5 C09", "sequential two-replica simulation: mutators on A, A's real broadcast queue drained into B after every operation or after batches of 2-5; listing equality and broadcast-key coverage as oracles; plus concurrent local changes on one node by PRNG-scheduled tasks under the race detector, after which a fresh node fed every queued broadcast must equal the origin (lockstep engine)",
+ "C09": ("E2 repl/bcast + E3 lockstep (-race)", "exploration", "5 C09", "sequential two-replica simulation: mutators on A, A's real broadcast queue drained into B after every operation or after batches of 2-5; listing equality and broadcast-key coverage as oracles, a quarter of the cases with an audit recorder that returns errors; plus concurrent local changes on one node by PRNG-scheduled tasks under the race detector, after which a fresh node fed every queued broadcast must equal the origin (lockstep engine)",
          "After every session/subscription/retained mutator (including bulk DeletePeer/DeleteSession over 0, 1, many entries) B must list exactly what A lists, and the broadcast must name every key whose visible state changed on A.",
          "Single strictly increasing clock, no loss (loss and reordering are C08's and C10's subjects)."),
  "C10": ("E2 repl/pushpull", "exploration", "5 C10", "sequential two-replica simulation with lossy gossip followed by real LocalState/MergeRemoteState exchange; per-replica LWW reference model",
@@ -30,7 +30,7 @@ claimed = {
          "The allowance is taken as 2x keep-alive (+5 s bound); keep-alive 0 not generated; one open known finding (gossip delivered after the leave notification)."),
  "C19": ("E2 tries + E3 lockstep (-race)", "exploration", "5 C19", "sequential simulation of topics.Store and subscriptions.Tree against a Go map keyed by full topic strings, with dump/load rebuild as the restart-like event, plus PRNG-scheduled concurrent tasks under the race detector with a porcupine map model (lockstep engine)",
          "Insert/replace/remove/upsert histories over keys with shared prefixes with a dump/load round trip at a random position; after every operation every key of the universe, the count and the iteration are compared with the map.",
-         "Keys without wildcards or empty levels (those are C01's). Half of the sequential cases compare with the map only at the end, because queries are not free of side effects on the store."),
+         "Keys without wildcards or empty levels (those are C01's); values may be empty (an empty value is no entry). Half of the sequential cases compare with the map only at the end, because queries are not free of side effects on the store."),
 }
 pending = {
  "C03": "check under construction (E1 retx profile)", "C05": "check under construction (E1 inbound profile)", "C07": "check under construction (E1 retained profile)",
